@@ -171,6 +171,10 @@ type Action struct {
 	Status  string `json:"status,omitempty"`
 	Bidder  string `json:"bidder,omitempty"`
 	Matched string `json:"matched,omitempty"`
+	Limit   int64  `json:"limit,omitempty"`
+	Offset  int64  `json:"offset,omitempty"`
+	Total   bool   `json:"total,omitempty"`
+	HasPage bool   `json:"-"`
 	// C17: which listener fails at which hook ("" = none)
 	HookFail string `json:"hookFail,omitempty"`
 	HookPos  int    `json:"hookPos,omitempty"`
